@@ -6,12 +6,12 @@ import (
 	"encoding/base64"
 	"encoding/hex"
 	"fmt"
-	"time"
 	"io"
 	"io/fs"
 	"os"
 	"sort"
 	"strings"
+	"time"
 
 	"github.com/pojntfx/stfs/pkg/config"
 	"github.com/pojntfx/stfs/pkg/recovery"
